@@ -543,7 +543,8 @@ def c06_shapes(tier):
         if tier == 'quick':
             cuts = cuts[1:2] + cuts[3:]
         for words, opt in cuts:
-            shapes.append(('hx_pa', [14, opt << 8], lab('c06/%s%d' % (lk, opt), words), {'pa_tmpl': tmpl('ok', ['%s=%s#0,#1,#2' % (item, prev)] + (['f=1'] if '-f' in words else []), AR, words)}))
+            # (the hash of a symbolic value forks per bucket: the unordered set gets two-valued slots)
+            shapes.append(('hx_pa', [14, opt << 8], lab('c06/%s%d' % (lk, opt), words), {'pa_tmpl': tmpl('ok', ['%s=%s#0,#1,#2' % (item, prev)] + (['f=1'] if '-f' in words else []), AR if key != 'u' else ['r2:10:11', 'r2:40:41', 'r2:70:71'], words)}))
     # values in descending order: sequences keep the given order, sorted containers sort, the sort option sorts
     for key, item, exp, opt in (('d', 'dq', '7,#2,#1,#0', 0), ('l', 'li', '7,#2,#1,#0', 0), ('q', 'qu', '#2,#1,#0', 0), ('k', 'sk', '#2,#1,#0', 0), ('p', 'pq', '#0,#1,#2', 0), ('m', 'ms', '#0,#1,#2', 0),
                                 ('d', 'dq', '#0,#1,#2', 1 | 2), ('l', 'li', '#0,#1,#2', 1 | 2), ('m', 'ms', '#0,#0,#1', -1), ('u', 'us', '#0,#1', -1)):
